@@ -101,6 +101,11 @@ def oracle(res):
         bodies += ["<mrow><mtext>1%s1/2 cups</mtext><mo>+</mo><mn>3%s12</mn></mrow>" % (inv, inv),
                    "<mrow><mo>%s</mo><mi>y</mi><mo>=</mo><mn>2</mn><mi>x</mi></mrow>" % inv,
                    "<mrow><mi>%s%s</mi><mo>+</mo><mi>ab%sc</mi></mrow>" % (inv, inv, inv)]
+    # tokens that carry an intent property (units above all: a unit that is in no table is spoken from its own text, with a
+    # plural ending), holding invisible operators, private-use characters, characters only the full table knows
+    for prop in (":unit", ":literal", ":prefix", ":postfix", ":function", ":silent"):
+        for text in ("q&#x2062;b", "&#xF000;", "x&#x2061;y", "&#x2135;", "k&#x2064;m", "&#x2A0C;"):
+            bodies += ["<mrow><mn>2</mn><mi intent='%s'>%s</mi></mrow>" % (prop, text), "<mrow><mn>1</mn><mi intent='%s'>%s</mi><mo>+</mo><mn>3.5</mn><mi mathvariant='normal' intent='%s'>%s</mi></mrow>" % (prop, text, prop, text)]
     # author ids of every kind (the id is how navigation marks its node: an id that is empty, blank, odd or repeated marks nothing in plain speech)
     bodies += ["<mrow><mi id=''>x</mi><mo>+</mo><mn>1</mn></mrow>", "<mrow id=''><mfrac id=''><mn>1</mn><mi>x</mi></mfrac><mo id=' '>+</mo><mi>y</mi></mrow>",
                "<mrow id='a'><mi id='a'>x</mi><mo id='a'>-</mo><msup id=''><mi id='[[x]]'>y</mi><mn id='0'>2</mn></msup></mrow>",
